@@ -33,6 +33,7 @@ type Case struct {
 	Carries bool     `json:"carries"`
 	Lenient bool     `json:"lenient"`
 	IdPat   string   `json:"idpat"`
+	Opt     string   `json:"opt"`
 }
 
 // foreign: content of another operation, sent under the requested operation code
@@ -344,7 +345,16 @@ func runCase(c Case, spec opSpec, msg string) (res result) {
 		for k := 0; k < c.N; k++ {
 			reqs = append(reqs, spec.req())
 		}
-		br, err := cl.Batch(ctx, reqs...)
+		var bopts []kmipclient.BatchOption
+		switch c.Opt {
+		case "Continue":
+			bopts = append(bopts, kmipclient.OnBatchErr(kmip.BatchErrorContinuationOptionContinue))
+		case "Stop":
+			bopts = append(bopts, kmipclient.OnBatchErr(kmip.BatchErrorContinuationOptionStop))
+		case "Undo":
+			bopts = append(bopts, kmipclient.OnBatchErr(kmip.BatchErrorContinuationOptionUndo))
+		}
+		br, err := cl.BatchOpt(ctx, reqs, bopts...)
 		if err != nil {
 			return result{Outcome: errOutcome(err), Detail: err.Error()}
 		}
